@@ -496,6 +496,206 @@ def writer(net_src, obs_src):
             "cov": cov, "vis": vis, "algs": algs, "alg_default": m.group(1)}
 
 
+# ---------------------------------------------------------------------------------------------- number formats per site
+
+FLOATFIELD = {"scientific": "sci", "fixed": "fixed", "defaultfloat": "gen"}
+
+
+def split_top(s, sep):
+    """split at `sep` outside parentheses / string and character literals"""
+    parts, depth, i, last, n = [], 0, 0, 0, len(s)
+    while i < n:
+        c = s[i]
+        if c == '"' or c == "'":
+            j = i + 1
+            while j < n and s[j] != c:
+                j += 2 if s[j] == "\\" else 1
+            i = j + 1
+            continue
+        if c in "([":
+            depth += 1
+        elif c in ")]":
+            depth -= 1
+        elif depth == 0 and s.startswith(sep, i):
+            parts.append(s[last:i])
+            i += len(sep)
+            last = i
+            continue
+        i += 1
+    parts.append(s[last:])
+    return parts
+
+
+def int_literal(txt, what):
+    if not re.fullmatch(r"\d+", txt.strip()):
+        raise DocError(f"{what}: precision `{txt.strip()}` is not an integer literal")
+    return int(txt)
+
+
+def to_xmlstr_format(obs_src, obs_hdr):
+    """the format of `to_xmlstr(val, prec)` (observation.cpp) and its default precision (observation.h)"""
+    b = body_of(obs_src, r"std::string\s+to_xmlstr\s*\(\s*double\s+val\s*,\s*int\s+prec\s*\)\s*\{", "to_xmlstr")
+    stm = [x for x in (ws(t) for t in b.split(";")) if "<<" in x]
+    if len(stm) != 1:
+        raise DocError(f"to_xmlstr: exactly one output statement expected, found {stm}")
+    ops = stm[0].split("<<")
+    if ops[0] != "ostr" or ops[-1] != "val" or not re.search(r"std::ostringstream\s+ostr\s*;", b):
+        raise DocError(f"to_xmlstr: output statement not recognised: {stm[0]}")
+    kind, prec = "gen", None            # a fresh ostringstream: defaultfloat
+    for o in ops[1:-1]:
+        o = o.replace("std::", "")
+        m = re.fullmatch(r"setprecision\((\w+)\)", o)
+        if m:
+            prec = m.group(1)
+        elif o in FLOATFIELD:
+            kind = FLOATFIELD[o]
+        else:
+            raise DocError(f"to_xmlstr: manipulator `{o}` not recognised")
+    if prec != "prec":
+        raise DocError(f"to_xmlstr: the precision is `{prec}`, not the parameter `prec`")
+    m = re.search(r"std::string\s+to_xmlstr\s*\(\s*double\s+val\s*,\s*int\s+prec\s*=\s*([^)]*?)\s*\)\s*;", obs_hdr)
+    if not m:
+        raise DocError("observation.h: declaration of to_xmlstr(double val, int prec = …) not found")
+    d = ws(m.group(1))
+    if d == "std::numeric_limits<double>::max_digits10":
+        default = 17                    # IEEE binary64: ceil(1 + 53·log10 2)
+    else:
+        default = int_literal(d, "observation.h: default precision of to_xmlstr")
+    return kind, default
+
+
+def to_xmlstr_calls(body, fn, kind, default):
+    """every `to_xmlstr(expr)` / `to_xmlstr(expr, N)` of a function body, in source order"""
+    out = []
+    for m in re.finditer(r"\bto_xmlstr\s*\(", body):
+        i, depth = m.end(), 1
+        while depth and i < len(body):
+            depth += {"(": 1, ")": -1}.get(body[i], 0)
+            i += 1
+        args = split_top(body[m.end():i - 1], ",")
+        if len(args) == 1:
+            p = default
+        elif len(args) == 2:
+            p = int_literal(args[1], f"{fn}: to_xmlstr({ws(args[0])}, …)")
+        else:
+            raise DocError(f"{fn}: to_xmlstr called with {len(args)} arguments")
+        out.append((fn, ws(args[0]), kind, p))
+    return out
+
+
+def stream_sites(body, fn):
+    """every `<<` of a floating value into a local std::ostringstream, with the floatfield / precision in force
+    (a fresh stream: defaultfloat, precision 6); unrecognised operands, manipulators or precisions raise"""
+    streams = re.findall(r"(?:std::)?ostringstream\s+(\w+)\s*;", body)
+    doubles = set(re.findall(r"\b(?:const\s+)?double\s+(\w+)\s*=", body))
+    out = []
+    for st in set(streams):
+        state = {"kind": "gen", "prec": 6}
+        for stmt in split_top(body.replace("{", ";").replace("}", ";"), ";"):
+            t = ws(stmt)
+            m = re.fullmatch(r"%s\.setf\((?:std::)?ios_base::(\w+),(?:std::)?ios_base::floatfield\)" % st, t)
+            if m:
+                if m.group(1) not in ("scientific", "fixed"):
+                    raise DocError(f"{fn}: {t} not recognised")
+                state["kind"] = FLOATFIELD[m.group(1)]
+                continue
+            m = re.fullmatch(r"%s\.precision\((.*)\)" % st, t)
+            if m:
+                state["prec"] = int_literal(m.group(1), f"{fn}: {t}")
+                continue
+            if re.match(r"%s\.(setf|unsetf|precision|flags|imbue)\b" % st, t):
+                raise DocError(f"{fn}: stream setting `{t}` not recognised")
+            if not re.match(r"%s<<" % st, t):
+                if re.search(r"\b%s<<" % st, t):
+                    raise DocError(f"{fn}: output statement `{t}` not recognised")
+                continue
+            for o in split_top(t, "<<")[1:]:
+                o2 = o.replace("std::", "")
+                m = re.fullmatch(r"setprecision\((.*)\)", o2)
+                if m:
+                    state["prec"] = int_literal(m.group(1), f"{fn}: {o}")
+                elif o2 in FLOATFIELD:
+                    state["kind"] = FLOATFIELD[o2]
+                elif re.fullmatch(r"setw\(\d+\)", o2) or re.fullmatch(r'"[^"]*"', o2) or \
+                        re.fullmatch(r"\(\(.*\)\?\"[^\"]*\":\"[^\"]*\"\)", o2):
+                    pass                # width, text, a choice between two texts
+                elif o2 in doubles:
+                    out.append((fn, o2, state["kind"], state["prec"]))
+                else:
+                    raise DocError(f"{fn}: operand `{o}` of `{st} <<` not recognised")
+    return out
+
+
+def fmt_sites(repo):
+    repo = Path(repo)
+    net = strip_comments((repo / "lib/gnu_gama/local/network.cpp").read_text())
+    obs = strip_comments((repo / "lib/gnu_gama/local/observation.cpp").read_text())
+    hdr = strip_comments((repo / "lib/gnu_gama/local/observation.h").read_text())
+    kind, default = to_xmlstr_format(obs, hdr)
+    sites = []
+    ex = body_of(net, r"std::string\s+LocalNetwork::export_xml\s*\(\s*std::string\s+version\s*\)\s*\{", "LocalNetwork::export_xml")
+    # attribute name of each to_xmlstr call of export_xml (from the writer-site scan), so that a site is named, not numbered
+    calls = to_xmlstr_calls(ex, "export_xml", kind, default)
+    attrs = [(s["attr"], s["expr"]) for s in scan_sites(ex) if s["expr"].startswith("to_xmlstr(")]
+    if len(attrs) != len(calls):
+        raise DocError(f"export_xml: {len(calls)} to_xmlstr calls but {len(attrs)} attribute sites that use one")
+    for (a, e), (fn, x, k, p) in zip(attrs, calls):
+        if ws(x) not in e:
+            raise DocError(f"export_xml: to_xmlstr({x}) does not belong to attribute {a} = {e}")
+        sites.append((fn, f"{a}={x}", k, p))
+    sites += stream_sites(ex, "export_xml")
+    cb = body_of(net, r"void\s+LocalNetwork::updated_xml_covmat\s*\([^)]*\)\s*\{", "updated_xml_covmat")
+    if re.search(r"\bto_xmlstr\s*\(", cb):
+        raise DocError("updated_xml_covmat calls to_xmlstr now")
+    cs = stream_sites(cb, "updated_xml_covmat")
+    if len(cs) != 1:
+        raise DocError(f"updated_xml_covmat: exactly one floating output expected, found {cs}")
+    sites += cs
+    for m in re.finditer(r"void\s+DisplayObservationVisitor::visit\s*\(\s*(\w+)\s*\*\s*obs\s*\)\s*\{", obs):
+        cls = m.group(1)
+        vb = body_of(obs, r"void\s+DisplayObservationVisitor::visit\s*\(\s*%s\s*\*\s*obs\s*\)\s*\{" % cls, f"visit({cls}*)")
+        if re.search(r"ostringstream|<<|\bprecision\b", vb):
+            raise DocError(f"DisplayObservationVisitor::visit({cls}*): prints through a stream now")
+        vcalls = to_xmlstr_calls(vb, f"visit({cls}*)", kind, default)
+        lhs = re.findall(r"\b(\w+)\s*=\s*to_xmlstr\s*\(", vb)
+        if len(lhs) != len(vcalls):
+            raise DocError(f"DisplayObservationVisitor::visit({cls}*): a to_xmlstr result is not assigned to a member")
+        for v, (fn, x, k, p) in zip(lhs, vcalls):
+            sites.append((fn, f"{v}={x}", k, p))
+    # other callees of export_xml that format a number: none is known to the model
+    for callee in ("angular_fmt", "gon2deg", "snprintf", "sprintf", "to_chars"):
+        if re.search(r"\b%s\s*\(" % callee, ex) or re.search(r"\b%s\s*\(" % callee, cb):
+            raise DocError(f"export_xml / updated_xml_covmat call {callee} now")
+    return sites
+
+
+def generate_fmt(repo):
+    S = fmt_sites(repo)
+    L = ["/-",
+         "  GENERATED by tools/gen/c13_doc.py (fmt_sites) from network.cpp (export_xml, updated_xml_covmat), observation.cpp",
+         "  (to_xmlstr, DisplayObservationVisitor) and observation.h (default precision of to_xmlstr) — do not edit.",
+         "  One entry per site of the export writer that prints a floating value, in source order, with the ostream format in",
+         "  force at that site: `to_xmlstr(x)` / `to_xmlstr(x, N)` = `setprecision(N) << defaultfloat` (`%.{N}g`), the elements of",
+         "  `<cov-mat>` = `setf(scientific)`, `precision(16)` (`%.16e`).",
+         "-/",
+         "import Gama.Model.DecimalCodec",
+         "namespace Gama.Gen.GkfFmtSites",
+         "open Gama.Dec", "",
+         "structure FmtSite where",
+         "  fn : String        -- the C++ function",
+         "  what : String      -- attribute=operand for export_xml, the operand text elsewhere",
+         "  fmt : Fmt",
+         "deriving DecidableEq, Repr", "",
+         "def sites : List FmtSite := ["]
+    rows = []
+    for fn, x, k, p in S:
+        xx = x.replace("\\", "\\\\").replace('"', '\\"')
+        rows.append(f'  ⟨"{fn}", "{xx}", .{k} {p}⟩')
+    L.append(",\n".join(rows))
+    L += ["]", "", "end Gama.Gen.GkfFmtSites", ""]
+    return "\n".join(L)
+
+
 # ---------------------------------------------------------------------------------------------- Lean text
 
 def lname(s):
@@ -747,7 +947,10 @@ def generate(repo):
 
 if __name__ == "__main__":
     try:
-        sys.stdout.write(generate(sys.argv[1] if len(sys.argv) > 1 else "/repo"))
+        if len(sys.argv) > 2 and sys.argv[2] == "fmt":
+            sys.stdout.write(generate_fmt(sys.argv[1]))
+        else:
+            sys.stdout.write(generate(sys.argv[1] if len(sys.argv) > 1 else "/repo"))
     except DocError as e:
         sys.stderr.write(f"DocError: {e}\n")
         sys.exit(2)
